@@ -482,8 +482,11 @@ class FakeP2P:
     async def disconnect(self):
         ghost("T").append(("disconnect", self.address))
         self.disconnect_hook()
-        if ghost("disconnect_fails")[-1]:
+        if ghost("disconnect_fails")[-1] == 1:
             raise ManagementConnectionError("disconnect failed")
+        if ghost("disconnect_fails")[-1] == 2:
+            # P2PConnection.disconnect on a connection the peer closed before (disconnect_closes_and_releases_everything)
+            raise ManagementConnectionRefused("Management connection disconnected by the peer.")
 
 
 class Table:
@@ -508,13 +511,15 @@ class Table:
         return self.value if (self.key is not None and self.key == k) else default
 
 
-@lemma("C43", params=dict(m=Obj(Management, xknx=Obj(World), _connections=Obj(Table, key=None, value=None), _broadcast_contexts=Const(None)), a=ADDR, b=ADDR, connect_fails=Bool(), disconnect_fails=Bool(), body_fails=Bool()), stubs=[(mgmt_mod, "P2PConnection", FakeP2P)])
+@lemma("C43", params=dict(m=Obj(Management, xknx=Obj(World), _connections=Obj(Table, key=None, value=None), _broadcast_contexts=Const(None)), a=ADDR, b=ADDR, connect_fails=Bool(), disconnect_fails=Choice(0, 1, 2), body_fails=Bool()), stubs=[(mgmt_mod, "P2PConnection", FakeP2P)])
 def connection_context_opens_once_and_always_closes(m, a, b, connect_fails, disconnect_fails, body_fails):
     """Management.connection(address): a frame belongs to 'an open connection' only between a successful
     connect() and the disconnect - the connection is entered into the table only after connect()
     succeeded, a second connection to the same address is refused, the context always disconnects (also
     when its body raises) and the disconnect hook removes exactly this entry; a failed connect leaves the
-    table unchanged."""
+    table unchanged. What the disconnect raises leaves the context unchanged - in particular
+    ManagementConnectionRefused ("the peer closed this connection"), which the procedures read as "a device
+    lives at this address"."""
     ghost("connect_fails").append(connect_fails)
     ghost("disconnect_fails").append(disconnect_fails)
     raised = None
@@ -532,6 +537,8 @@ def connection_context_opens_once_and_always_closes(m, a, b, connect_fails, disc
                     raise RuntimeError("body failed")
 
         run(use())
+    except ManagementConnectionRefused:
+        raised = "refused"
     except ManagementConnectionError:
         raised = "mgmt"
     except RuntimeError:
@@ -542,6 +549,7 @@ def connection_context_opens_once_and_always_closes(m, a, b, connect_fails, disc
         assert raised == "mgmt" and [x[0] for x in tr] == ["connect"] and len(ghost("created")) == 1
     else:
         assert [x[0] for x in tr] == ["connect", "disconnect"] and len(ghost("created")) == 1
+        assert raised == ("refused" if disconnect_fails == 2 else "mgmt" if disconnect_fails == 1 else "body" if body_fails else None)
 
 
 # ------------------------------------------------------------------ which response a request expects (KNX 03_03_07)
